@@ -16,6 +16,7 @@ CONSTANTS
   CancelCalls = {1, 2}
   EnvTClose = TRUE
   OrderedStart = TRUE
+  Eager = FALSE
   WithHist = TRUE
 INVARIANTS Emit
 CHECK_DEADLOCK FALSE
